@@ -185,7 +185,9 @@ def _cfg_vfire(tier):
         rmax = K * step / 2 * 0.9
         for i in range(2 if tier == 'quick' else 6):
             n = 2 if tier == 'quick' else 6
-            out.append({'carrier': c, 'step_ft': step, 'relative_deg': rel, 'rlo': max(rmax * i / n, step * 1.01), 'rhi': rmax * (i + 1) / n})
+            # in a vacuum the wind cannot act: segmented winds (switches inside the horizon) must leave the parabola untouched
+            out.append({'carrier': c, 'step_ft': step, 'relative_deg': rel, 'rlo': max(rmax * i / n, step * 1.01), 'rhi': rmax * (i + 1) / n,
+                        'wind': ['none', 'two', 'tail_then_head'][i % 3]})
     return out
 
 
@@ -195,12 +197,12 @@ def _cfg_vfire(tier):
          bounds='the real Calculator.fire with the real Vacuum atmosphere on carriers A (5 deg), C (30 deg) [thorough: + B downhill, finer A, default step] with SYMBOLIC range and record step: '
                 'every row (interpolated rows are terms in the request) vs the closed-form parabola under the configured gravity; horizon K <= 12 / 40 steps; altitude excursion > 30 ft',
          assumptions=['tolerance = the exact discretisation term of C01.vacuum bounded by |g|*(step/2)*t/2 plus the chord error of the linear row interpolation (g*dt^2/8) plus 1e-9'])
-def c01_vacuum_fire(ctx, carrier, step_ft, relative_deg, rlo, rhi):
+def c01_vacuum_fire(ctx, carrier, step_ft, relative_deg, rlo, rhi, wind='none'):
     import math
     from harness import carriers
     p = pybc()
     U = p.Unit
-    calc, shot = carriers.make(carrier, step_ft, 'none', relative_deg=relative_deg, vacuum=True)
+    calc, shot = carriers.make(carrier, step_ft, wind, relative_deg=relative_deg, vacuum=True)
     R = ctx.real('range_ft', rlo, rhi)
     S = ctx.real('record_step_ft', step_ft, max(rhi, step_ft))
     rows = calc.fire(shot, U.Foot(R), U.Foot(S)).trajectory
@@ -219,5 +221,56 @@ def c01_vacuum_fire(ctx, carrier, step_ft, relative_deg, rlo, rhi):
         tol = abs(g) * (step_ft / 2) / max(1.0, v0 * 0.5) * t / 2 + abs(g) * dtmax * dtmax / 8 + 1e-9
         ctx.check('vacuum_rows_on_parabola_within_discretisation_term',
                   (ctx.abs(x - vx * t) <= 1e-9 * (1 + ctx.abs(x))) & (ctx.abs(y - (y0 + vy * t + g * t * t / 2)) <= tol), info={'row': k})
+        ctx.check('vacuum_no_windage', ctx.abs((r.windage >> U.Foot) - (calc._calc.spin_drift(t) if not ctx.is_symbolic(t) else 0.0)) <= 1e-9
+                  if (shot.weapon.twist >> U.Inch) == 0 or not ctx.is_symbolic(t) else True, info={'row': k})
         ctx.check('vacuum_speed_is_closed_form', ctx.abs((r.velocity >> U.FPS) * (r.velocity >> U.FPS) - (vx * vx + (vy + g * t) * (vy + g * t)))
                   <= 1e-6 * v0 * v0 + 2 * abs(g) * dtmax * v0, info={'row': k})
+
+
+def _cfg_drag_loop(tier):
+    K = 12 if tier == 'quick' else 40
+    plan = [('D', 20.0, dict(relative_deg=-80.0), 8000.0, 'none'), ('A', 100.0, dict(), 0.0, 'two'), ('D', 20.0, dict(relative_deg=60.0), 0.0, 'head')]
+    return [{'carrier': c, 'step_ft': s, 'kw': kw, 'altitude_ft': alt, 'wind': w, 'K': K} for (c, s, kw, alt, w) in plan]
+
+
+@harness('C01.drag_in_loop', 'C01', configs=_cfg_drag_loop, functions=FUNCS + ['py_ballisticcalc.trajectory_calc._trajectory_calc.TrajectoryCalc.drag_by_mach'], cost=6,
+         engine_opts={'div_check': False, 'nl_axioms_in_feasibility': False},
+         must_reach=['check:drag_in_the_loop_is_the_table_function_of_the_mach_asked', 'mach_rises', 'mach_falls'],
+         bounds='carriers D (300 fps, steep downhill from 8000 ft: the projectile ACCELERATES; and lofted into a head wind), A (two winds) with symbolic range: every drag value the loop '
+                'obtains (pass-through spy on drag_by_mach) equals the stateless table look-up of the Mach asked (real _calculate_by_curve_and_mach_list on a freshly built curve, '
+                'which C09 decides against the table), times 2.08551e-4 / BC; and the Mach asked is |v - w| / a of the point fed to the recorder',
+         outside=['shots other than the carriers: per step this is C01.step (drag asked at |v-w|/a) + C09 (what drag_by_mach returns)'])
+def c01_drag_in_loop(ctx, carrier, step_ft, kw, altitude_ft, wind, K):
+    from harness import carriers
+    p = pybc()
+    U = p.Unit
+    tc = tcmod()
+    calc, shot = carriers.make(carrier, step_ft, wind, altitude_ft=altitude_ft, config={'cMinimumVelocity': 0.0, 'cMaximumDrop': -1e9, 'cMinimumAltitude': -1e9}, **kw)
+    import math
+    R = ctx.real('range_ft', 0.5, K * step_ft / 2 * 0.9 * max(0.05, abs(math.cos(math.radians(kw.get('relative_deg', 0.0))))))
+    calls = []
+    orig = tc.TrajectoryCalc.drag_by_mach
+
+    def spy(self, mach):
+        v = orig(self, mach)
+        calls.append((mach, v))
+        return v
+    tc.TrajectoryCalc.drag_by_mach = spy
+    try:
+        calc.fire(shot, U.Foot(R), U.Foot(step_ft))
+    finally:
+        tc.TrajectoryCalc.drag_by_mach = orig
+    pts = shot.ammo.dm.drag_table
+    curve = tc.calculate_curve(pts)
+    machs = tc._get_only_mach_data(pts)
+    bc = shot.ammo.dm.BC
+    ok = True
+    for (m, v) in calls:
+        want = tc._calculate_by_curve_and_mach_list(machs, curve, m) * 2.08551e-04 / bc
+        ok = ok and (abs(v - want) <= 1e-12 * abs(want))
+    ctx.check('drag_in_the_loop_is_the_table_function_of_the_mach_asked', ok, info={'calls': len(calls)})
+    ms = [m for (m, _) in calls]
+    if any(b > a for a, b in zip(ms, ms[1:])):
+        ctx.reach('mach_rises')
+    if any(b < a for a, b in zip(ms, ms[1:])):
+        ctx.reach('mach_falls')
